@@ -9,9 +9,9 @@ import (
 // RichTypes are the leaf types of the "all leaf types" schemas used by the
 // writer and request-damage checks.
 var RichTypes = []string{"string", "int8", "int16", "int32", "int64", "uint8", "uint16", "uint32", "uint64",
-	"decimal64", "boolean", "enum", "bits", "binary", "empty", "identityref", "union"}
+	"decimal64", "boolean", "enum", "bits", "binary", "empty", "identityref", "union", "unione"}
 
-var RichListTypes = []string{"string", "int32", "enum", "uint64", "boolean", "decimal64", "identityref", "union"}
+var RichListTypes = []string{"string", "int32", "enum", "uint64", "boolean", "decimal64", "identityref", "union", "unione"}
 
 type richGen struct {
 	r   *kit.Rng
